@@ -141,6 +141,12 @@ def run(prop_id, tier, seed, replay=None):
                            ASSUMPTIONS, label=label)
         if prop_id == "C08" and not replay:
             rc = max(rc, multi_store(tier, seed, t0))
+        if prop_id == "C07" and not replay:
+            # concurrent readers against a writer (reader/writer slice, HSRace.tla)
+            from . import hsrace
+            rc2, cov2 = hsrace.run_race("C07", tier, seed)
+            hsrace.merge_evidence("C07", cov2)
+            rc = max(rc, rc2)
         return rc
     finally:
         shutil.rmtree(sc, ignore_errors=True)
